@@ -176,6 +176,10 @@ class Stream(ModelMixin["Stream"], Base):
         abs_filename = upload_folder / filename
         logging.debug('destination file "%s"', abs_filename)
         mf = MediaFile.get(name=filename.stem)
+        if mf and mf.stream_pk != self.pk:
+            # media file names are unique across all streams
+            raise ValueError(
+                f'A file called "{filename.stem}" already exists in stream "{mf.stream.directory}"')
         if mf:
             mf.delete_file()
             mf.delete()
